@@ -15,6 +15,23 @@ use super::{ColumnLoader, PartitionID};
 use crate::mem_store::{Column, DataSource};
 use crate::observability::{PerfCounter, QueryPerfCounter, SimpleTracer};
 
+/// Waits for the results of `expected` jobs running on a thread pool.
+///
+/// The caller must have dropped its own `Sender`, so that the channel disconnects once every job has
+/// either sent its result or died. A job that panics never sends: waiting for exactly `expected`
+/// results on a channel that stays open would block forever. Panics if a job died.
+fn collect_job_results<T>(rx: mpsc::Receiver<T>, expected: usize, what: &str) -> Vec<T> {
+    let results: Vec<T> = rx.iter().take(expected).collect();
+    assert!(
+        results.len() == expected,
+        "{} of {} jobs panicked: {}",
+        expected - results.len(),
+        expected,
+        what,
+    );
+    results
+}
+
 impl ColumnLoader for Storage {
     fn load_column(
         &self,
@@ -207,10 +224,11 @@ impl Storage {
                 tx.send((wal_file, wal_segment, wal_data.len() as u64)).unwrap();
             });
         }
+        drop(tx);
 
         let mut wal_size = 0;
         let mut wal_segments = Vec::new();
-        for (path, wal_segment, size) in rx.iter().take(num_wal_files) {
+        for (path, wal_segment, size) in collect_job_results(rx, num_wal_files, "loading WAL segments") {
                 if wal_segment.id < earliest_uncommited_wal_id {
                     if readonly {
                         log::info!("Skipping wal segment {}", path.display());
@@ -316,9 +334,9 @@ impl Storage {
             tracer.end_span(span_spawn_tasks);
 
             let span_wait_for_tasks = tracer.start_span("wait_for_tasks");
-            for _ in rx.iter().take(partition_count) {
-                // Wait for all partitions to be persisted
-            }
+            drop(tx);
+            // Wait for all partitions to be persisted
+            collect_job_results(rx, partition_count, "persisting partitions");
             tracer.end_span(span_wait_for_tasks);
         } else {
             // Write out new partition files
@@ -367,9 +385,9 @@ impl Storage {
                     tx.send(()).unwrap();
                 });
             }
-            for _ in rx.iter().take(count as usize) {
-                // Wait for all WAL segments to be deleted
-            }
+            drop(tx);
+            // Wait for all WAL segments to be deleted
+            collect_job_results(rx, count as usize, "deleting WAL segments");
         } else {
             for id in ids {
                 let path = self.wal_dir.join(format!("{}.wal", id));
@@ -454,9 +472,9 @@ impl Storage {
             tracer.end_span(span_spawn_tasks);
 
             let span_wait_for_tasks = tracer.start_span("wait_for_tasks");
-            for _ in rx.iter().take(partition_count) {
-                // Wait for all partitions to be deleted
-            }
+            drop(tx);
+            // Wait for all partitions to be deleted
+            collect_job_results(rx, partition_count, "deleting orphaned partitions");
             tracer.end_span(span_wait_for_tasks);
         } else {
             for (table, to_delete) in &to_delete {
